@@ -68,7 +68,7 @@ impl Compiler {
             self.compile_typed_expr(arg, arg_reg)?;
         }
 
-        self.emit_call_global_cached(dest, idx as u8, args.len() as u8, name, span);
+        self.emit_call_global_cached(dest, idx as u8, args.len() as u8, name, span)?;
 
         for i in (0..args.len()).rev() {
             let arg_reg = arg_start + i as u8;
